@@ -47,7 +47,13 @@ func c11Classic(c *vlib.Ctx) {
 		}
 		p.EarlyFIN = 4
 		h := asm.Gen(rd, p)
-		switch rd.Intn(6) {
+		switch rd.Intn(9) {
+		case 6: // both limits at once: the total must still be enforced on a connection that is under its own limit
+			h.PerConnLimit, h.TotalLimit = 6, 8
+		case 7:
+			h.PerConnLimit, h.TotalLimit = 5, 3
+		case 8:
+			h.PerConnLimit, h.TotalLimit = 2, 10
 		case 0:
 			h.PerConnLimit = 1
 		case 1:
